@@ -216,6 +216,8 @@ func (vc *VC) embFact(inner, outer Term) {
 	a0 := vc.famName(allocKey, 0)
 	vc.declare(a0, allocSort)
 	vc.decls = append(vc.decls, "(assert "+sEq(sSel(a0, inner), sSel(a0, outer))+")")
+	// the address of a part of an object is nil exactly when the object's address is
+	vc.decls = append(vc.decls, "(assert "+sEq(sEq(inner, "0"), sEq(outer, "0"))+")")
 }
 
 func (vc *VC) elemPtr(arr, idx Term, et types.Type) Value {
